@@ -31,11 +31,24 @@ import (
 	"time"
 )
 
-const (
-	repoDir  = "/repo"
-	verifDir = "/verif"
-	goRoot   = "/opt/veriftools/go1.26.8"
-)
+const goRoot = "/opt/veriftools/go1.26.8"
+
+// repoDir is /repo; VERIF_REPO overrides it for development (sensitivity runs
+// against a scratch worktree).
+var repoDir = func() string {
+	if d := os.Getenv("VERIF_REPO"); d != "" {
+		return d
+	}
+	return "/repo"
+}()
+
+// verifDir is /verif; VERIF_DIR overrides it for development copies.
+var verifDir = func() string {
+	if d := os.Getenv("VERIF_DIR"); d != "" {
+		return d
+	}
+	return "/verif"
+}()
 
 // spec describes how a property is checked.
 type spec struct {
